@@ -107,7 +107,9 @@ def zint(v):
         return z3.If(v.z, z3.IntVal(1), z3.IntVal(0))
     if isinstance(v, z3.ArithRef) and v.is_int():
         return v
-    raise Unsupported(f'zint of {type(v).__name__}')
+    if os.environ.get('PYVC_DEBUG'):
+        import traceback; traceback.print_stack()
+    raise Unsupported(f'zint of {type(v).__name__} {v!r}'[:120])
 
 
 def zreal(v):
